@@ -39,6 +39,9 @@ pub fn check(tier: Tier) -> Check {
     // identifier spaces made to collide: the next PACKET identifier equals the SUBSCRIPTION identifier
     // of an established subscription (a late SUBACK / cancelled subscribe must not touch that one)
     parts.push(Part::new("C15/streams", json!({"depth": tier.pick(4, 6), "collide": true}), 0, tier.pick(30, 400)));
+    // value flavour (DESIGN 4): the same exploration with requests / inbound messages of unusual content
+    parts.push(Part::new("C15/cancel", json!({"depth": tier.pick(4, 5), "r": 1, "vals": 1}), 1, tier.pick(30, 500)));
+    parts.push(Part::new("C15/streams", json!({"depth": tier.pick(4, 5), "vals": 1}), 0, tier.pick(30, 400)));
     Check {
         also_rel: false,
         property: "C15",
